@@ -23,6 +23,8 @@ import (
 	"sync"
 	"syscall"
 	"time"
+
+	"github.com/sourcenetwork/corelog"
 )
 
 // Exit codes.
@@ -218,6 +220,13 @@ type workerResult struct {
 
 // RunWorker executes the cases with index%n == i and index >= from.
 func RunWorker(chk *Check, seed uint64, tier string, i, n, from int, outPath, journalPath string) int {
+	// The system under test logs every merged block at level info; time-travel queries replay whole
+	// histories and produce hundreds of MB of log per worker. Errors are still logged.
+	if os.Getenv("VERIF_LOG_INFO") == "" {
+		cfg := corelog.DefaultConfig()
+		cfg.Level = corelog.LevelError
+		corelog.SetConfig(cfg)
+	}
 	cases := limitCases(chk.Cases(seed, tier))
 	for k := range cases {
 		cases[k].Index = k
